@@ -19,7 +19,8 @@ Record ext := {
   x_time : bytes -> option Z;             (* bfe_util.ParseTime(text): unix seconds (UTC) *)
   x_tod : bytes -> option (Z * Z);        (* bfe_util.ParseTimeOfDay(text): (h*3600+m*60+s, zone offset) *)
   x_hash : bytes -> Z;                    (* murmur3.Sum64(value) mod 10000 *)
-  x_ipstr : bytes -> bytes                (* net.IP(raw).String() *)
+  x_ipstr : bytes -> bytes;               (* net.IP(raw).String() *)
+  x_now : Z                               (* time.Now() in unix seconds (requests without X-Bfe-Debug-Time) *)
 }.
 
 (* ------------------------------------------------------------------ small byte helpers *)
@@ -357,8 +358,12 @@ Definition fetch_k (x : ext) (fk : fkind) (key : bytes) (r : request) : fval :=
     | _, _ => FErr
     end
   | FBfeTimeFetcher =>
-    (* only requests carrying X-Bfe-Debug-Time are modelled (otherwise time.Now()) *)
-    match x_time x (hget n_DebugTime (r_headers r)) with Some t => FTime t | None => FErr end
+    (* values, ok := Header["X-Bfe-Debug-Time"]; !ok => time.Now(); else ParseTime(values[0]) *)
+    match aget n_DebugTime (r_headers r) with
+    | None => FTime (x_now x)
+    | Some (v :: _) => match x_time x v with Some t => FTime t | None => FErr end
+    | Some [] => FErr                      (* values[0] on an empty slice panics; not a request shape that exists *)
+    end
   end.
 Definition fetch (x : ext) (fetcher : bytes) (key : bytes) (r : request) : fval :=
   match fetcher_of fetcher with Some fk => fetch_k x fk key r | None => FErr end.
@@ -556,6 +561,13 @@ Definition key_list_has {A} (keys : bytes) (tbl : alist A) : bool :=
 Definition header_key_in (keys : bytes) (h : alist (list bytes)) : bool :=
   existsb (fun k => match aget (canon_key k) h with Some (v :: _) => nonempty v | _ => false end) (split_bar keys).
 
+(* "current time": the mock time of the X-Bfe-Debug-Time header when the request carries one, the clock otherwise *)
+Definition current_time (x : ext) (r : request) : option Z :=
+  match aget n_DebugTime (r_headers r) with
+  | None => Some (x_now x)
+  | Some (v :: _) => x_time x v
+  | Some [] => None
+  end.
 Definition spec_other (x : ext) (name : bytes) (args : list arg) (r : request) : option bool :=
   let s0 := arg_str (nth_arg args 0) in
   let s1 := arg_str (nth_arg args 1) in
@@ -599,12 +611,12 @@ Definition spec_other (x : ext) (name : bytes) (args : list arg) (r : request) :
           | None => false
           end)
   else if bytes_eqb name ((* "bfe_time_range" *) [98;102;101;95;116;105;109;101;95;114;97;110;103;101]) then
-    Some (match x_time x (hget n_DebugTime (r_headers r)), x_time x s0, x_time x s1 with
+    Some (match current_time x r, x_time x s0, x_time x s1 with
           | Some t, Some s, Some e => (s <=? t) && (t <=? e)
           | _, _, _ => false
           end)
   else if bytes_eqb name ((* "bfe_periodic_time_range" *) [98;102;101;95;112;101;114;105;111;100;105;99;95;116;105;109;101;95;114;97;110;103;101]) then
-    Some (match x_time x (hget n_DebugTime (r_headers r)), x_tod x s0, x_tod x s1 with
+    Some (match current_time x r, x_tod x s0, x_tod x s1 with
           | Some t, Some (s, off), Some (e, _) => let secs := (t + off) mod 86400 in (s <=? secs) && (secs <=? e)
           | _, _, _ => false
           end)
@@ -635,7 +647,7 @@ Definition dec_arg (v : val) : option arg :=
 Definition dec_args (v : val) : option (list arg) :=
   match v with VL l => all_some (map dec_arg l) | _ => None end.
 
-(* oracle tables: [iptab retab rmtab timetab todtab hashtab ipstrtab] *)
+(* oracle tables: [iptab retab rmtab timetab todtab hashtab ipstrtab] optionally followed by now (unix seconds) *)
 Fixpoint find_row (k : bytes) (rows : list val) : option (list val) :=
   match rows with
   | [] => None
@@ -649,10 +661,8 @@ Fixpoint find_row2 (k1 k2 : bytes) (rows : list val) : option (list val) :=
   | _ :: r => find_row2 k1 k2 r
   end.
 Definition rows_of (v : val) : list val := match v with VL l => l | _ => [] end.
-Definition dec_ext (v : val) : option ext :=
-  match v with
-  | VL [ipt; ret; rmt; tit; tot; hat; ist] =>
-    Some {| x_ip := fun k => match find_row k (rows_of ipt) with
+Definition mk_ext (ipt ret rmt tit tot hat ist : val) (now : Z) : ext :=
+    {| x_ip := fun k => match find_row k (rows_of ipt) with
                              | Some [VB ip; VZ v4] => match ip with [] => None | _ => Some (ip, negb (v4 =? 0)) end
                              | _ => None end;
             x_re_ok := fun k => match find_row k (rows_of ret) with Some [VZ b] => negb (b =? 0) | _ => false end;
@@ -662,7 +672,12 @@ Definition dec_ext (v : val) : option ext :=
             x_tod := fun k => match find_row k (rows_of tot) with
                               | Some [VZ ok; VZ sc; VZ off] => if ok =? 0 then None else Some (sc, off) | _ => None end;
             x_hash := fun k => match find_row k (rows_of hat) with Some [VZ b] => b | _ => -1 end;
-            x_ipstr := fun k => match find_row k (rows_of ist) with Some [VB t] => t | _ => [] end |}
+            x_ipstr := fun k => match find_row k (rows_of ist) with Some [VB t] => t | _ => [] end;
+            x_now := now |}.
+Definition dec_ext (v : val) : option ext :=
+  match v with
+  | VL [ipt; ret; rmt; tit; tot; hat; ist] => Some (mk_ext ipt ret rmt tit tot hat ist 0)
+  | VL [ipt; ret; rmt; tit; tot; hat; ist; VZ now] => Some (mk_ext ipt ret rmt tit tot hat ist now)
   | _ => None
   end.
 
